@@ -323,6 +323,134 @@ func (vc *VC) applyContract(st *State, call *ast.CallExpr, c *Contract, callee *
 	return results
 }
 
+// dispatch: a call of an UNEXPORTED interface method of this module without an interface contract. Every implementation
+// lives in the declaring package (closed world); when each of them has a contract, the call stands for "the contract of
+// the implementation the dynamic type selects": the frames of all implementations are havocked (union), each
+// implementation's postconditions are assumed under the guard typeof(receiver) == that type, its preconditions are
+// obligations under the same guard, and the receiver's dynamic type is one of them (or the receiver is nil).
+func (vc *VC) dispatch(st *State, call *ast.CallExpr, m *types.Func, sig *types.Signature, recv *Value, args []*Value) ([]*Value, bool) {
+	if m.Exported() || m.Pkg() == nil {
+		return nil, false
+	}
+	pi := vc.w.Pkgs[m.Pkg().Path()]
+	if pi == nil {
+		return nil, false
+	}
+	type impl struct {
+		c   *Contract
+		fn  *types.Func
+		ptr types.Type
+	}
+	var impls []impl
+	scope := pi.P.Types.Scope()
+	for _, n := range scope.Names() {
+		tn, ok := scope.Lookup(n).(*types.TypeName)
+		if !ok || tn.IsAlias() {
+			continue
+		}
+		named, ok := tn.Type().(*types.Named)
+		if !ok || isInterface(named) {
+			continue
+		}
+		for _, RT := range []types.Type{named, types.NewPointer(named)} {
+			ms := types.NewMethodSet(RT)
+			sel := ms.Lookup(m.Pkg(), m.Name())
+			if sel == nil {
+				continue
+			}
+			f, _ := sel.Obj().(*types.Func)
+			if f == nil {
+				continue
+			}
+			// only the receiver type the method is declared on (T or *T) is a possible dynamic type with this body
+			if _, isPtrRecv := f.Type().(*types.Signature).Recv().Type().(*types.Pointer); isPtrRecv != (RT != types.Type(named)) {
+				continue
+			}
+			c := vc.w.contractFor(f)
+			if c == nil {
+				return nil, false // an implementation without contract: no closed-world summary
+			}
+			impls = append(impls, impl{c, f, RT})
+		}
+	}
+	if len(impls) == 0 {
+		return nil, false
+	}
+	st.approx = true
+	oldSt := st.clone()
+	var guards []string
+	type prepared struct {
+		im    impl
+		guard string
+		rv    *Value
+	}
+	var preps []prepared
+	for _, im := range impls {
+		g := smtAnd(smtNot(smtEq(recv.Term, "0")), smtEq(app("typeof", recv.Term), vc.typeTag(im.ptr)))
+		guards = append(guards, g)
+		rv := intV(app("ptrof", recv.Term), im.ptr)
+		preps = append(preps, prepared{im, g, rv})
+		vc.calleesWithContract[im.c.Pkg+"::"+im.c.Key] = true
+		names := vc.contractNames(im.c, im.fn, sig, rv, args, nil)
+		pre := &SpecScope{cur: st, old: nil, names: names, pkg: pi, predPkg: im.c.Pkg, where: "dispatch " + im.c.Key}
+		vc.guards = append(vc.guards, g)
+		for _, r := range im.c.Requires {
+			t := vc.evalSpecBoolIn(pre, r.Expr)
+			vc.oblige(st, "pre", shortKey(im.c)+"."+r.Label, "requires "+r.Text+" [dynamic dispatch at "+vc.w.pos(call.Pos())+"]", call.Pos(), t)
+			if vc.noSafety["pre"] {
+				st.assume(smtImp(g, t))
+			}
+		}
+		vc.guards = vc.guards[:len(vc.guards)-1]
+	}
+	// a nil receiver panics: execution continues only with a non-nil one, whose dynamic type is one of the
+	// implementations
+	vc.safety(st, "nil", call, smtNot(smtEq(recv.Term, "0")))
+	st.assume(smtNot(smtEq(recv.Term, "0")))
+	st.assume(smtOr(guards...))
+	// union of the frames
+	whole := false
+	var targets []ModTarget
+	for _, p := range preps {
+		names := vc.contractNames(p.im.c, p.im.fn, sig, p.rv, args, nil)
+		pre := &SpecScope{cur: oldSt, old: nil, names: names, pkg: pi, predPkg: p.im.c.Pkg, where: "dispatch " + p.im.c.Key}
+		if !p.im.c.HasMod {
+			whole = true
+			continue
+		}
+		ts, wh, _ := vc.resolveMods(pre, p.im.c)
+		if wh {
+			whole = true
+		}
+		targets = append(targets, ts...)
+	}
+	if whole {
+		vc.havocAllHeap(st)
+		var ghost []ModTarget
+		for _, t := range targets {
+			if strings.HasPrefix(t.comp, "ghost:") {
+				ghost = append(ghost, t)
+			}
+		}
+		vc.havocTargets(st, ghost)
+	} else {
+		vc.havocAlloc(st)
+		vc.havocTargets(st, targets)
+	}
+	results := vc.havocResults(st, m.Name(), sig)
+	outer := smtAnd(vc.guards...)
+	for _, p := range preps {
+		names := vc.contractNames(p.im.c, p.im.fn, sig, p.rv, args, results)
+		post := &SpecScope{cur: st, old: oldSt, names: names, pkg: pi, predPkg: p.im.c.Pkg, where: "dispatch " + p.im.c.Key}
+		for _, e := range append(append([]Clause{}, p.im.c.Ensures...), p.im.c.Defines...) {
+			t := vc.evalSpecBoolIn(post, e.Expr)
+			st.assume(smtImp(smtAnd(outer, p.guard), t))
+		}
+	}
+	vc.assumptions["dynamic dispatch of "+m.FullName()+": closed world - every implementation lives in the declaring package and is under contract"] = true
+	return results, true
+}
+
 func shortKey(c *Contract) string {
 	p := c.Pkg
 	if i := strings.LastIndex(p, "/"); i >= 0 {
